@@ -54,7 +54,7 @@ def gen_dispose(rng, src, always=False):
 
 
 def cases(rng, tier):
-    n = fw.tier_scale(tier, 500, 5000)
+    n = fw.tier_scale(tier, 400, 4000)
     for _ in range(n):
         yield gen_count(rng)
     for g in EXTRA_GENS:
@@ -171,11 +171,11 @@ def gen_time_count(rng):
             "count": rng.choice([1, 2, 2, 3, 5]), "dispose": d, "dw": dw}
 
 
-EXTRA_GENS = [(gen_bound, 250), (gen_when, 250), (gen_toggle, 300), (gen_time, 350), (gen_time_count, 250)]
+EXTRA_GENS = [(gen_bound, 200), (gen_when, 220), (gen_toggle, 250), (gen_time, 300), (gen_time_count, 200)]
 
 
 # ----------------------------------------------------------------------------------------- real code
-class _Hang(Exception):
+class _Hang(BaseException):   # not swallowed by `except Exception`
     pass
 
 
@@ -337,8 +337,9 @@ def impl(case):
     import reactivex.operators  # noqa: F401
     import reactivex.testing  # noqa: F401
 
-    old = signal.signal(signal.SIGALRM, _alarm)
-    signal.setitimer(signal.ITIMER_REAL, 20.0)
+    # CPU-time watchdog (a runaway scheduler loop burns CPU; wall-clock stalls of a loaded machine do not count)
+    old = signal.signal(signal.SIGVTALRM, _alarm)
+    signal.setitimer(signal.ITIMER_VIRTUAL, 10.0)
     try:
         w = run_real(case, False)
         b = run_real(case, True)
@@ -346,8 +347,8 @@ def impl(case):
     except _Hang:
         return {"hang": True}
     finally:
-        signal.setitimer(signal.ITIMER_REAL, 0)
-        signal.signal(signal.SIGALRM, old)
+        signal.setitimer(signal.ITIMER_VIRTUAL, 0)
+        signal.signal(signal.SIGVTALRM, old)
 
 
 # ----------------------------------------------------------------------------------------- model side
@@ -909,6 +910,7 @@ THEOREMS = [
     "C18.wwc_window_k",
     "C18.wwc_window_count",
     "C18.wwc_closes_at_count",
+    "C18.wwc_ends_with_source",
     "C18.window_partition_count",
     "C18.window_partition_boundaries",
     "C18.window_partition_when",
@@ -923,6 +925,14 @@ THEOREMS = [
     "C18.toggle_windows_end_partial",
     "C18.toggle_completion_counter",
     "C18.timer_chain",
+    "C18.buffer_is_items",
+    "C18.buffer_view_seen",
+    "C18.buffer_eq_window_count",
+    "C18.buffer_eq_window_boundaries",
+    "C18.buffer_eq_window_when",
+    "C18.buffer_eq_window_toggle",
+    "C18.buffer_eq_window_time",
+    "C18.buffer_eq_window_time_or_count",
 ]
 RULE = ("six window operators (with_count, boundaries, when, toggle, with_time, with_time_or_count) and their buffer twins on hot "
         "TestScheduler timelines: 0..20 elements incl. falsy values and same-instant arrivals, count/skip 1..N with skip<count, "
@@ -949,14 +959,17 @@ LEVEL_TEXT = ("Lean theorems about hand-written models of window_with_count_, wi
               "(for every tagged event trace incl. dispose anywhere and, for the timed operators, timer firings anywhere: the elements "
               "pushed into window id are exactly the source elements arriving while id is in the operator's open set, in arrival order); "
               "windows_end_with_source_* (in any state, a source terminal ends every open window with that terminal and stops the outer "
-              "observer); timer_chain (the create_timer sequence opens at k*shift and closes at k*shift+span, due times never decrease). "
+              "observer); buffer_eq_window_* / buffer_is_items (each buffer = contents of its window); timer_chain (the create_timer sequence opens at k*shift and closes at k*shift+span, due times never decrease). "
               "Models are tied to /repo by differential execution of window and buffer operators on generated hot timelines, plus oracles "
               "written from the property text (routing on the interleaved log, end-with-source, per-operator open/close tables, "
               "buffer = contents of its window).")
 LEVEL_NOTE = ("window_toggle/buffer_toggle: the full end-with-source statement is false of the code (known finding "
               "C18-toggle-open-at-source-completion); proved: toggle_windows_end_partial (source error) and the decided counter-example "
-              "toggle_completion_counter on the as-is model. buffer_eq_window is NOT proved in Lean: buffers are modelled as the "
-              "flat_map(to_list) view over the window machine's log (BufView, RxModel/WinBuf.lean) and checked by correspondence against "
-              "the real buffer operators and by the buffer oracle only. The time-window routing theorem is over the machine's explicit "
+              "toggle_completion_counter on the as-is model. buffer_eq_window_*: buffers are modelled as the flat_map(to_list) view over "
+              "the window machine's log (BufView, RxModel/WinBuf.lean; to_list's accumulator of a window = the elements its observer "
+              "received); proved for every state of every run of all six machines: those elements = the elements pushed into the window, "
+              "and the view emits exactly them at the window's completion; that the real buffer operators are this composition is "
+              "checked by correspondence + the buffer oracle. windows_end_with_source_* speak about the operator's open set in an "
+              "arbitrary state; that every window outside the open set has already ended is not proved (oracle only). The time-window routing theorem is over the machine's explicit "
               "schedule (Mach.sched) / any tick placement; the closed form 'window k receives the elements in (k*shift, k*shift+span]' is "
               "checked by the oracle, not proved. Assumed: static same-instant order of hot sources; integer time.")
